@@ -517,3 +517,462 @@ Section WithFunc.
     intros Ha Hb. rewrite (forward_spec a b Ha), (backward_spec a b Hb). reflexivity.
   Qed.
 End WithFunc.
+
+(* ------------------------------------------------------------------ Function::locations *)
+Lemma NoDup_app_intro {A} (l1 l2 : list A) :
+  NoDup l1 -> NoDup l2 -> (forall x, In x l1 -> ~ In x l2) -> NoDup (l1 ++ l2).
+Proof.
+  induction l1 as [|a t IH]; intros H1 H2 Hd; [exact H2|].
+  cbn. inversion H1 as [|? ? Ha Ht]; subst. constructor.
+  - intros Hin. apply in_app_or in Hin as [Hin|Hin]; [exact (Ha Hin)|].
+    exact (Hd a (or_introl eq_refl) Hin).
+  - apply IH; auto. intros x Hx. apply Hd. right; exact Hx.
+Qed.
+
+Lemma in_block_locations b l :
+  In l (block_locations b) <->
+  (b_instrs b = [] /\ l = LEmpty (b_index b)) \/ (exists i, In i (b_instrs b) /\ l = LInstr (b_index b) (i_index i)).
+Proof.
+  unfold block_locations. destruct (b_instrs b) as [|x t] eqn:E.
+  - cbn. split.
+    + intros [<-|[]]. left; auto.
+    + intros [[_ ->]|(i & [] & _)]. left; reflexivity.
+  - rewrite in_map_iff. split.
+    + intros (i & <- & Hi). right. exists i; auto.
+    + intros [[H _]|(i & Hi & ->)]; [discriminate|]. exists i; auto.
+Qed.
+
+(* C18, clause 2a: what is enumerated *)
+Theorem locations_complete f l :
+  In l (locations f) <->
+  (exists b i, In b (f_blocks f) /\ In i (b_instrs b) /\ l = LInstr (b_index b) (i_index i))
+  \/ (exists b, In b (f_blocks f) /\ b_instrs b = [] /\ l = LEmpty (b_index b))
+  \/ (exists e, In e (f_edges f) /\ l = LEdge (e_head e) (e_tail e)).
+Proof.
+  unfold locations. rewrite in_app_iff, in_flat_map, in_map_iff. split.
+  - intros [(b & Hb & Hl)|(e & <- & He)].
+    + apply in_block_locations in Hl as [[E ->]|(i & Hi & ->)].
+      * right; left. exists b; auto.
+      * left. exists b, i; auto.
+    + right; right. exists e; auto.
+  - intros [(b & i & Hb & Hi & ->)|[(b & Hb & E & ->)|(e & He & ->)]].
+    + left. exists b. split; [exact Hb|]. apply in_block_locations. right. exists i; auto.
+    + left. exists b. split; [exact Hb|]. apply in_block_locations. left; auto.
+    + right. exists e; auto.
+Qed.
+
+Lemma block_locations_nodup b : NoDup (map i_index (b_instrs b)) -> NoDup (block_locations b).
+Proof.
+  unfold block_locations. destruct (b_instrs b) as [|x t] eqn:E.
+  - intros _. constructor; [intros [] | constructor].
+  - generalize (x :: t). clear. intros l. induction l as [|y r IH]; cbn; intros H; [constructor|].
+    inversion H as [|? ? Hy Hr]; subst. constructor; [|apply IH; exact Hr].
+    intros Hin. apply in_map_iff in Hin as (z & Hz & Hzr). injection Hz as Hz.
+    apply Hy. rewrite <- Hz. apply in_map. exact Hzr.
+Qed.
+
+Lemma blocks_locations_nodup bs :
+  sorted_by b_index bs = true -> (forall b, In b bs -> NoDup (map i_index (b_instrs b))) ->
+  NoDup (flat_map block_locations bs).
+Proof.
+  induction bs as [|x t IH]; intros Hs Hn; [constructor|].
+  apply sorted_by_cons in Hs as [Ht Hall]. cbn [flat_map].
+  apply NoDup_app_intro.
+  - apply block_locations_nodup. apply Hn. left; reflexivity.
+  - apply IH; [exact Ht|]. intros b Hb. apply Hn. right; exact Hb.
+  - intros l Hl Hl'. apply in_flat_map in Hl' as (b & Hb & Hlb). specialize (Hall b Hb).
+    apply in_block_locations in Hl as [[_ ->]|(i & _ & ->)];
+      apply in_block_locations in Hlb as [[_ Hq]|(j & _ & Hq)]; try discriminate; injection Hq as Hq; lia.
+Qed.
+
+Lemma edge_locs_nodup es : edges_sorted es = true -> NoDup (map (fun e => LEdge (e_head e) (e_tail e)) es).
+Proof.
+  induction es as [|x t IH]; intros Hs; [constructor|].
+  apply edges_sorted_cons in Hs as [Ht Hall]. cbn [map]. constructor; [|apply IH; exact Ht].
+  intros Hin. apply in_map_iff in Hin as (e & He & Het). injection He as H1 H2.
+  specialize (Hall e Het). unfold elt in Hall. lia.
+Qed.
+
+(* C18, clause 2b: ... exactly once *)
+Theorem locations_nodup f : cfg_inv (f_cfg f) = true -> NoDup (locations f).
+Proof.
+  intros Hinv. pose proof (cfg_inv_wf _ Hinv) as W. unfold locations.
+  apply NoDup_app_intro.
+  - apply blocks_locations_nodup; [exact (wf_blocks _ W) | exact (wf_instrs _ W)].
+  - apply edge_locs_nodup. exact (wf_edges _ W).
+  - intros l Hl Hl'. apply in_flat_map in Hl as (b & _ & Hlb). apply in_map_iff in Hl' as (e & <- & _).
+    apply in_block_locations in Hlb as [[_ Hq]|(j & _ & Hq)]; discriminate.
+Qed.
+
+(* the enumerated locations are exactly the valid ones *)
+Theorem locations_valid f l : cfg_inv (f_cfg f) = true -> (In l (locations f) <-> valid_loc f l = true).
+Proof.
+  intros Hinv. pose proof (cfg_inv_wf _ Hinv) as W. rewrite locations_complete. split.
+  - intros [(b & i & Hb & Hi & ->)|[(b & Hb & E & ->)|(e & He & ->)]]; cbn [valid_loc].
+    + rewrite (fb_in f Hinv b Hb). apply in_split in Hi as (pre & post & E).
+      unfold block_instruction.
+      destruct (find_instr (b_instrs b) (i_index i)) eqn:F; [reflexivity|].
+      exfalso. eapply find_instr_none; [exact F | | reflexivity]. rewrite E. apply in_elt.
+    + rewrite (fb_in f Hinv b Hb). unfold block_is_empty. rewrite E. reflexivity.
+    + unfold f_edges. rewrite (find_edge_in _ e (wf_edges _ W) He). reflexivity.
+  - intros Hv. destruct l as [bi ii|h t|bi].
+    + apply (valid_instr f) in Hv as (b & pre & x & post & Hb & <- & <- & E).
+      left. exists b, x. repeat split; auto. rewrite E. apply in_elt.
+    + apply (valid_edge f) in Hv as (e & He & <- & <-). right; right. exists e; auto.
+    + apply (valid_empty f) in Hv as (b & Hb & <- & E). right; left. exists b; auto.
+Qed.
+
+(* ------------------------------------------------------------------ closure under forward *)
+Section Closure.
+  Variable f : func.
+  Hypothesis Hinv : cfg_inv (f_cfg f) = true.
+  Let W : cfg_wf (f_cfg f) := cfg_inv_wf _ Hinv.
+
+  Lemma instr_valid b x : In b (f_blocks f) -> In x (b_instrs b) -> valid_loc f (LInstr (b_index b) (i_index x)) = true.
+  Proof.
+    intros Hb Hx. apply (locations_valid f _ Hinv). apply locations_complete. left. exists b, x; auto.
+  Qed.
+  Lemma first_valid b : In b (f_blocks f) -> valid_loc f (block_first_loc b) = true.
+  Proof.
+    intros Hb. destruct (block_first_loc_cases b) as [[E ->]|(x & post & E & ->)].
+    - apply (locations_valid f _ Hinv). apply locations_complete. right; left. exists b; auto.
+    - apply instr_valid; [exact Hb|]. rewrite E. left; reflexivity.
+  Qed.
+  Lemma last_valid b : In b (f_blocks f) -> valid_loc f (block_last_loc b) = true.
+  Proof.
+    intros Hb. destruct (block_last_loc_cases b) as [[E ->]|(pre & x & E & ->)].
+    - apply (locations_valid f _ Hinv). apply locations_complete. right; left. exists b; auto.
+    - apply instr_valid; [exact Hb|]. rewrite E. apply in_elt.
+  Qed.
+  Lemma edge_valid e : In e (f_edges f) -> valid_loc f (LEdge (e_head e) (e_tail e)) = true.
+  Proof.
+    intros He. apply (locations_valid f _ Hinv). apply locations_complete. right; right. exists e; auto.
+  Qed.
+
+  Lemma step_valid a b : step f a b -> valid_loc f a = true /\ valid_loc f b = true.
+  Proof.
+    intros [blk pre x y post Hblk E | blk e Hblk He Hh | blk e Hblk He Ht].
+    - split; apply instr_valid; auto; rewrite E.
+      + apply in_elt.
+      + apply in_or_app. right. right. left. reflexivity.
+    - split; [apply last_valid | apply edge_valid]; assumption.
+    - split; [apply edge_valid | apply first_valid]; assumption.
+  Qed.
+
+  Lemma first_block b : loc_block (block_first_loc b) = b_index b.
+  Proof. unfold block_first_loc. destruct (b_instrs b); reflexivity. Qed.
+  Lemma last_block b : loc_block (block_last_loc b) = b_index b.
+  Proof. unfold block_last_loc. destruct (rev (b_instrs b)); reflexivity. Qed.
+
+  Lemma step_path a b : step f a b -> on_entry_path f a -> on_entry_path f b.
+  Proof.
+    unfold on_entry_path.
+    intros [blk pre x y post Hblk E | blk e Hblk He Hh | blk e Hblk He Ht] Hp.
+    - exact Hp.
+    - rewrite last_block in Hp. cbn [loc_block]. rewrite Hh. exact Hp.
+    - cbn [loc_block] in Hp. rewrite first_block, <- Ht. eapply br_step; [exact Hp | exact He | reflexivity].
+  Qed.
+
+  Lemma from_function_spec l : from_function f = Some (Ok l) <->
+    exists e b, g_entry (f_cfg f) = Some e /\ In b (f_blocks f) /\ b_index b = e /\ l = block_first_loc b.
+  Proof.
+    unfold from_function, f_block, cfg_block. fold (f_blocks f). split.
+    - destruct (g_entry (f_cfg f)) as [e|]; [|discriminate].
+      destruct (find_block (f_blocks f) e) as [b|] eqn:Eb; cbn [bind]; [|discriminate].
+      intros [= <-]. apply find_block_some in Eb as [Hb Hi]. exists e, b; auto.
+    - intros (e & b & -> & Hb & <- & ->). rewrite (fb_in f Hinv b Hb). reflexivity.
+  Qed.
+
+  Lemma fclosure_step a b : fclosure f a -> step f a b -> fclosure f b.
+  Proof.
+    intros Ha Hs. destruct (step_valid _ _ Hs) as [Va _].
+    apply (forward_spec f Hinv a b Va) in Hs as (l & Hf & Hb). eapply fc_step; eassumption.
+  Qed.
+
+  (* within a block the closure walks from the first location to every instruction *)
+  Lemma fclosure_block b : In b (f_blocks f) -> fclosure f (block_first_loc b) ->
+    forall pre x post, b_instrs b = pre ++ x :: post -> fclosure f (LInstr (b_index b) (i_index x)).
+  Proof.
+    intros Hb H0 pre. induction pre as [|p pre' IH] using rev_ind; intros x post E.
+    - unfold block_first_loc in H0. rewrite E in H0. exact H0.
+    - rewrite <- app_assoc in E. cbn [app] in E.
+      eapply fclosure_step; [exact (IH p (x :: post) E)|]. eapply st_next; eassumption.
+  Qed.
+  Lemma fclosure_last b : In b (f_blocks f) -> fclosure f (block_first_loc b) -> fclosure f (block_last_loc b).
+  Proof.
+    intros Hb H0. destruct (block_last_loc_cases b) as [[E ->]|(pre & x & E & ->)].
+    - unfold block_first_loc in H0. rewrite E in H0. exact H0.
+    - eapply fclosure_block; eassumption.
+  Qed.
+
+  Lemma breach_first bi : breach (f_cfg f) bi -> forall b, In b (f_blocks f) -> b_index b = bi -> fclosure f (block_first_loc b).
+  Proof.
+    induction 1 as [e He | h e Hh IH He Eh]; intros b Hb Ei.
+    - apply fc_entry. apply from_function_spec. exists e, b; auto.
+    - destruct (edge_ends f Hinv e He) as [(hb & Hhb & Ehb) _].
+      assert (F1 : fclosure f (block_first_loc hb)) by (apply IH; [exact Hhb | congruence]).
+      apply (fclosure_last hb Hhb) in F1.
+      assert (F2 : fclosure f (LEdge (e_head e) (e_tail e))).
+      { eapply fclosure_step; [exact F1|]. apply st_out; auto. }
+      eapply fclosure_step; [exact F2|]. apply st_in; auto.
+  Qed.
+
+  (* C18, clause 3: the closure of the entry location under forward is exactly the set of
+     instructions / empty blocks / edges lying on paths from the entry block *)
+  Theorem forward_closure_eq_paths l :
+    fclosure f l <-> (valid_loc f l = true /\ on_entry_path f l).
+  Proof.
+    split.
+    - induction 1 as [l Hl | a ls b Ha IH Hf Hb].
+      + apply from_function_spec in Hl as (e & b & He & Hb & Ei & ->). split.
+        * apply first_valid; exact Hb.
+        * unfold on_entry_path. rewrite first_block, Ei. apply br_entry; exact He.
+      + destruct IH as [Va Pa].
+        assert (Hs : step f a b) by (apply (forward_spec f Hinv a b Va); eauto).
+        split; [exact (proj2 (step_valid _ _ Hs)) | exact (step_path _ _ Hs Pa)].
+    - intros [Hv Hp]. unfold on_entry_path in Hp. destruct l as [bi ii|h t|bi]; cbn [loc_block] in Hp.
+      + apply (valid_instr f) in Hv as (b & pre & x & post & Hb & <- & <- & E).
+        eapply fclosure_block; [exact Hb | | exact E]. eapply breach_first; [exact Hp | exact Hb | reflexivity].
+      + apply (valid_edge f) in Hv as (e & He & <- & <-).
+        destruct (edge_ends f Hinv e He) as [(hb & Hhb & Ehb) _].
+        eapply fclosure_step; [|apply st_out; [exact Hhb | exact He | congruence]].
+        apply fclosure_last; [exact Hhb|]. eapply breach_first; [exact Hp | exact Hhb | exact Ehb].
+      + apply (valid_empty f) in Hv as (b & Hb & <- & E).
+        replace (LEmpty (b_index b)) with (block_first_loc b) by (unfold block_first_loc; rewrite E; reflexivity).
+        eapply breach_first; [exact Hp | exact Hb | reflexivity].
+  Qed.
+
+  (* forward never fails on a valid location and stays inside the valid locations (used by C09) *)
+  Theorem forward_total a : valid_loc f a = true ->
+    exists l, forward f a = Ok l /\ forall b, In b l -> valid_loc f b = true.
+  Proof.
+    intros Hv.
+    assert (Hok : exists l, forward f a = Ok l).
+    { destruct a as [bi ii|h t|bi].
+      - apply (valid_instr f) in Hv as (b & pre & x & post & Hb & <- & <- & E).
+        rewrite (forward_instr f Hinv _ _ _ _ Hb E). destruct post; [|eauto].
+        rewrite (edges_out_ok f _ (hb_in f Hinv _ Hb)). cbn [bind]. eauto.
+      - apply (valid_edge f) in Hv as (e & He & <- & <-).
+        destruct (edge_ends f Hinv e He) as [_ (tb & Htb & Et)].
+        rewrite (forward_edge f Hinv e tb He Htb (eq_sym Et)). eauto.
+      - apply (valid_empty f) in Hv as (b & Hb & <- & E).
+        rewrite forward_empty by exact Hb.
+        rewrite (edges_out_ok f _ (hb_in f Hinv _ Hb)). cbn [bind]. eauto. }
+    destruct Hok as [l Hl]. exists l. split; [exact Hl|].
+    intros b Hb. assert (Hs : step f a b) by (apply (forward_spec f Hinv a b Hv); eauto).
+    exact (proj2 (step_valid _ _ Hs)).
+  Qed.
+  Theorem backward_total b : valid_loc f b = true ->
+    exists l, backward f b = Ok l /\ forall a, In a l -> valid_loc f a = true.
+  Proof.
+    intros Hv.
+    assert (Hok : exists l, backward f b = Ok l).
+    { destruct b as [bi ii|h t|bi].
+      - apply (valid_instr f) in Hv as (blk & pre & x & post & Hb & <- & <- & E).
+        rewrite (backward_instr f Hinv _ _ _ _ Hb E). destruct (rev pre); [|eauto].
+        rewrite (edges_in_ok f _ (hb_in f Hinv _ Hb)). cbn [bind]. eauto.
+      - apply (valid_edge f) in Hv as (e & He & <- & <-).
+        destruct (edge_ends f Hinv e He) as [(hb & Hhb & Eh) _].
+        rewrite (backward_edge f Hinv e hb He Hhb (eq_sym Eh)). eauto.
+      - apply (valid_empty f) in Hv as (blk & Hb & <- & E).
+        rewrite backward_empty by exact Hb.
+        rewrite (edges_in_ok f _ (hb_in f Hinv _ Hb)). cbn [bind]. eauto. }
+    destruct Hok as [l Hl]. exists l. split; [exact Hl|].
+    intros a Ha. assert (Hs : step f a b) by (apply (backward_spec f Hinv a b Hv); eauto).
+    exact (proj1 (step_valid _ _ Hs)).
+  Qed.
+End Closure.
+
+(* ------------------------------------------------------------------ owned form and apply *)
+Lemma floc_apply_valid f l : valid_loc f l = true -> floc_apply f l = Ok l.
+Proof.
+  destruct l as [bi ii|h t|bi]; cbn [valid_loc floc_apply].
+  - destruct (find_block (f_blocks f) bi); [|discriminate]. destruct (block_instruction b ii); [reflexivity|discriminate].
+  - destruct (find_edge (f_edges f) h t); [reflexivity|discriminate].
+  - destruct (find_block (f_blocks f) bi); [reflexivity|discriminate].
+Qed.
+
+(* apply never returns a different location: it is a partial identity *)
+Lemma floc_apply_id f l l' : floc_apply f l = Ok l' -> l' = l.
+Proof.
+  destruct l as [bi ii|h t|bi]; cbn [floc_apply].
+  - destruct (find_block (f_blocks f) bi); [|discriminate]. destruct (block_instruction b ii); [congruence|discriminate].
+  - destruct (find_edge (f_edges f) h t); [congruence|discriminate].
+  - destruct (find_block (f_blocks f) bi); [congruence|discriminate].
+Qed.
+
+Lemma valid_loc_cfg f f' l : f_cfg f' = f_cfg f -> valid_loc f' l = valid_loc f l.
+Proof. intros E. destruct l; cbn [valid_loc]; unfold f_blocks, f_edges; rewrite E; reflexivity. Qed.
+
+Lemma find_func_in fs k f : sorted_by fst fs = true -> In (k, f) fs -> find_func fs k = Some f.
+Proof.
+  induction fs as [|[k' f'] t IH]; intros Hs Hin; [destruct Hin|].
+  apply sorted_by_cons in Hs as [Ht Hall]. cbn [find_func].
+  destruct Hin as [[= -> ->]|Hin].
+  - rewrite Z.eqb_refl. reflexivity.
+  - specialize (Hall _ Hin). cbn [fst] in Hall. destruct (k' =? k) eqn:E; [apply Z.eqb_eq in E; lia|].
+    apply IH; assumption.
+Qed.
+
+Lemma find_func_some fs k f : find_func fs k = Some f -> In (k, f) fs.
+Proof.
+  induction fs as [|[k' f'] t IH]; cbn [find_func]; [discriminate|].
+  destruct (k' =? k) eqn:E.
+  - intros [= ->]. apply Z.eqb_eq in E. subst. left; reflexivity.
+  - intros H. right. apply IH; exact H.
+Qed.
+
+Lemma prog_inv_index p k f : prog_inv p = true -> In (k, f) (p_funcs p) ->
+  program_function p k = Some f /\ f_index f = Some k.
+Proof.
+  unfold prog_inv. intros H Hin. apply andb_true_iff in H as [Hs Hi]. split.
+  - apply find_func_in; assumption.
+  - rewrite forallb_forall in Hi. specialize (Hi _ Hin). cbn [fst snd] in Hi.
+    unfold optZ_eqb in Hi. destruct (f_index f) as [x|]; [|discriminate]. apply Z.eqb_eq in Hi. congruence.
+Qed.
+
+(* C18, clause 4: owned form applied to a program holding an equal function (same program, a clone,
+   or any program whose function [fi] has the same graph) yields the same location *)
+Theorem apply_from_id p' fi f f' l :
+  f_index f = Some fi -> valid_loc f l = true ->
+  program_function p' fi = Some f' -> f_cfg f' = f_cfg f ->
+  ploc_apply p' (ploc_of f l) = Ok (fi, l) /\ floc_apply f' l = Ok l.
+Proof.
+  intros Hi Hv Hp Hc. unfold ploc_apply, ploc_of. cbn [pl_func pl_loc]. rewrite Hi, Hp.
+  rewrite <- (valid_loc_cfg f f' l Hc) in Hv. rewrite (floc_apply_valid f' l Hv). cbn [bind]. auto.
+Qed.
+
+Corollary apply_from_id_same p fi f l :
+  prog_inv p = true -> In (fi, f) (p_funcs p) -> valid_loc f l = true ->
+  ploc_apply p (ploc_of f l) = Ok (fi, l).
+Proof.
+  intros Hp Hin Hv. destruct (prog_inv_index p fi f Hp Hin) as [H1 H2].
+  exact (proj1 (apply_from_id p fi f f l H2 Hv H1 eq_refl)).
+Qed.
+
+Theorem migrate_id p' fi f f' l :
+  f_index f = Some fi -> valid_loc f l = true ->
+  program_function p' fi = Some f' -> f_cfg f' = f_cfg f ->
+  migrate p' f l = Ok (fi, l).
+Proof.
+  intros Hi Hv Hp Hc. unfold migrate. rewrite Hi, Hp.
+  rewrite <- (valid_loc_cfg f f' l Hc) in Hv. unfold f_block, f_edge, cfg_block, cfg_edge.
+  fold (f_blocks f') (f_edges f').
+  destruct l as [bi ii|h t|bi]; cbn [valid_loc] in Hv.
+  - destruct (find_block (f_blocks f') bi); [|discriminate]. cbn [bind].
+    destruct (block_instruction b ii); [reflexivity|discriminate].
+  - destruct (find_edge (f_edges f') h t); [reflexivity|discriminate].
+  - destruct (find_block (f_blocks f') bi); [reflexivity|discriminate].
+Qed.
+
+(* ------------------------------------------------------------------ from_address *)
+Definition has_addr (p : program) (a : Z) : Prop :=
+  exists k f b i, In (k, f) (p_funcs p) /\ In b (f_blocks f) /\ In i (b_instrs b) /\ i_addr i = Some a.
+
+Lemma find_addr_instrs_some bi is_ a l : find_addr_instrs bi is_ a = Some l ->
+  exists x, In x is_ /\ i_addr x = Some a /\ l = LInstr bi (i_index x).
+Proof.
+  induction is_ as [|x t IH]; cbn [find_addr_instrs]; [discriminate|].
+  destruct (i_addr x) as [ia|] eqn:Ea.
+  - destruct (ia =? a) eqn:E.
+    + intros [= <-]. apply Z.eqb_eq in E. subst. exists x. repeat split; auto. left; reflexivity.
+    + intros H. destruct (IH H) as (y & Hy & Hy2). exists y. split; [right; exact Hy | exact Hy2].
+  - intros H. destruct (IH H) as (y & Hy & Hy2). exists y. split; [right; exact Hy | exact Hy2].
+Qed.
+Lemma find_addr_instrs_none bi is_ a : find_addr_instrs bi is_ a = None -> forall x, In x is_ -> i_addr x <> Some a.
+Proof.
+  induction is_ as [|x t IH]; cbn [find_addr_instrs]; [intros _ ? []|].
+  destruct (i_addr x) as [ia|] eqn:Ea.
+  - destruct (ia =? a) eqn:E; [discriminate|].
+    intros H y [<-|Hy]; [rewrite Ea; apply Z.eqb_neq in E; congruence | apply IH; assumption].
+  - intros H y [<-|Hy]; [rewrite Ea; discriminate | apply IH; assumption].
+Qed.
+Lemma find_addr_blocks_some bs a l : find_addr_blocks bs a = Some l ->
+  exists b x, In b bs /\ In x (b_instrs b) /\ i_addr x = Some a /\ l = LInstr (b_index b) (i_index x).
+Proof.
+  induction bs as [|b t IH]; cbn [find_addr_blocks]; [discriminate|].
+  destruct (find_addr_instrs (b_index b) (b_instrs b) a) as [l'|] eqn:E.
+  - intros [= <-]. apply find_addr_instrs_some in E as (x & Hx & Ha & ->). exists b, x. repeat split; auto. left; reflexivity.
+  - intros H. destruct (IH H) as (b' & x & Hb & Hx). exists b', x. split; [right; exact Hb | exact Hx].
+Qed.
+Lemma find_addr_blocks_none bs a : find_addr_blocks bs a = None ->
+  forall b x, In b bs -> In x (b_instrs b) -> i_addr x <> Some a.
+Proof.
+  induction bs as [|b t IH]; cbn [find_addr_blocks]; [intros _ ? ? []|].
+  destruct (find_addr_instrs (b_index b) (b_instrs b) a) as [l'|] eqn:E; [discriminate|].
+  intros H b' x [<-|Hb] Hx.
+  - eapply find_addr_instrs_none; eassumption.
+  - eapply IH; eassumption.
+Qed.
+Lemma exhaustive_some fs a k l : exhaustive_address fs a = Some (k, l) ->
+  exists f b x, In (k, f) fs /\ In b (f_blocks f) /\ In x (b_instrs b) /\ i_addr x = Some a /\ l = LInstr (b_index b) (i_index x).
+Proof.
+  induction fs as [|[k' f'] t IH]; cbn [exhaustive_address]; [discriminate|].
+  destruct (find_addr_blocks (f_blocks f') a) as [l'|] eqn:E.
+  - intros [= <- <-]. apply find_addr_blocks_some in E as (b & x & Hb & Hx). exists f', b, x. split; [left; reflexivity | auto].
+  - intros H. destruct (IH H) as (f & b & x & Hf & Hr). exists f, b, x. split; [right; exact Hf | exact Hr].
+Qed.
+Lemma exhaustive_none fs a : exhaustive_address fs a = None ->
+  forall k f b x, In (k, f) fs -> In b (f_blocks f) -> In x (b_instrs b) -> i_addr x <> Some a.
+Proof.
+  induction fs as [|[k' f'] t IH]; cbn [exhaustive_address]; [intros _ ? ? ? ? []|].
+  destruct (find_addr_blocks (f_blocks f') a) as [l'|] eqn:E; [discriminate|].
+  intros H k f b x [[= -> ->]|Hf] Hb Hx.
+  - eapply find_addr_blocks_none; eassumption.
+  - eapply IH; eassumption.
+Qed.
+Lemma closest_in fs a best k f : closest_function fs a best = Some (k, f) -> In (k, f) fs \/ best = Some (k, f).
+Proof.
+  revert best. induction fs as [|[k' f'] t IH]; intros best; cbn [closest_function]; [auto|].
+  destruct (a <? f_addr f').
+  - intros H. destruct (IH _ H); auto. left; right; assumption.
+  - destruct best as [[bk bf]|].
+    + destruct (f_addr bf <? f_addr f'); intros H; destruct (IH _ H) as [H'|H']; auto.
+      * left; right; assumption.
+      * left; left; congruence.
+      * left; right; assumption.
+    + intros H. destruct (IH _ H) as [H'|H']; [left; right; assumption | left; left; congruence].
+Qed.
+
+Lemma from_address_some p a k l : from_address p a = Some (k, l) ->
+  exists f b x, In (k, f) (p_funcs p) /\ In b (f_blocks f) /\ In x (b_instrs b) /\ i_addr x = Some a /\ l = LInstr (b_index b) (i_index x).
+Proof.
+  unfold from_address. destruct (closest_function (p_funcs p) a None) as [[ck cf]|] eqn:Ec.
+  - destruct (find_addr_blocks (f_blocks cf) a) as [l'|] eqn:E.
+    + intros [= <- <-]. apply closest_in in Ec as [Hin|Hb]; [|discriminate].
+      apply find_addr_blocks_some in E as (b & x & Hb & Hx). exists cf, b, x. auto.
+    + apply exhaustive_some.
+  - apply exhaustive_some.
+Qed.
+
+(* C18, clause 5: address look-up finds an instruction with that address whenever one exists *)
+Theorem from_address_complete p a :
+  (has_addr p a -> exists k l, from_address p a = Some (k, l)) /\
+  (~ has_addr p a -> from_address p a = None).
+Proof.
+  split.
+  - intros (k & f & b & i & Hf & Hb & Hi & Ha).
+    destruct (from_address p a) as [[k' l']|] eqn:E; [eauto|]. exfalso.
+    assert (Ex : exhaustive_address (p_funcs p) a = None).
+    { unfold from_address in E. destruct (closest_function (p_funcs p) a None) as [[ck cf]|]; [|exact E].
+      destruct (find_addr_blocks (f_blocks cf) a); [discriminate | exact E]. }
+    exact (exhaustive_none _ _ Ex k f b i Hf Hb Hi Ha).
+  - intros Hn. destruct (from_address p a) as [[k l]|] eqn:E; [|reflexivity]. exfalso. apply Hn.
+    apply from_address_some in E as (f & b & x & Hf & Hb & Hx & Ha & _). exists k, f, b, x. auto.
+Qed.
+
+(* ... and what it returns is a valid instruction location of the function reported, whose
+   instruction carries the address *)
+Theorem from_address_sound p a k l :
+  prog_inv p = true -> (forall k f, In (k, f) (p_funcs p) -> cfg_inv (f_cfg f) = true) ->
+  from_address p a = Some (k, l) ->
+  exists f i, program_function p k = Some f /\ valid_loc f l = true /\
+              loc_instruction f l = Some i /\ i_addr i = Some a.
+Proof.
+  intros Hp Hc E. apply from_address_some in E as (f & b & x & Hf & Hb & Hx & Ha & ->).
+  exists f, x. pose proof (Hc k f Hf) as Hinv. split; [exact (proj1 (prog_inv_index p k f Hp Hf))|].
+  split; [apply (instr_valid f Hinv); assumption|]. split; [|exact Ha].
+  cbn [loc_instruction]. rewrite (fb_in f Hinv b Hb). unfold block_instruction.
+  apply in_split in Hx as (pre & post & Es).
+  apply (find_instr_in _ pre x post Es). exact (proj1 (split_nodup f Hinv b pre x post Hb Es)).
+Qed.
